@@ -4,13 +4,16 @@
 EXTENDS Integers, Sequences, TLC, Json
 Kinds == <<"led", "rgb", "servo", "motor", "button", "pot", "ultrasonic", "buzzer", "lcd", "lcdi2c">>
 Hoistable == {"led", "rgb", "servo", "motor", "button", "pot", "ultrasonic"}
-VARIABLES kind, place, use, nb, hasloop, other, rebind, decor, anim, cont, done
+VARIABLES kind, place, use, nb, hasloop, other, rebind, decor, anim, cont, firstbind, done
 Init == /\ kind \in 1..Len(Kinds) /\ place \in {"before", "looptop"} /\ use \in {"setup", "loop", "helper"}
         /\ nb \in 0..2 /\ hasloop \in BOOLEAN /\ other \in 0..Len(Kinds) /\ done = FALSE
-        /\ rebind \in BOOLEAN /\ decor \in BOOLEAN /\ anim \in 0..2 /\ cont \in BOOLEAN
+        /\ rebind \in BOOLEAN /\ decor \in BOOLEAN /\ anim \in 0..2 /\ cont \in BOOLEAN /\ firstbind \in BOOLEAN
         \* anim: the display runs that many looping animations, started in the prologue (their ticks are injected housekeeping)
         /\ (anim > 0 => Kinds[kind] \in {"lcd", "lcdi2c"} /\ hasloop /\ ~decor
-                         /\ (other = 0 \/ Kinds[other] # "ultrasonic"))      \* the ranging helper reads the clock itself
+                         /\ (IF other = 0 THEN TRUE ELSE Kinds[other] # "ultrasonic"))      \* the ranging helper reads the clock itself
+        \* firstbind: the loop body opens with the first binding of a name (a declaration in the emitted code) whose right-hand side
+        \* reads a sensor - a user statement like any other: the housekeeping comes before it
+        /\ (firstbind => hasloop /\ (anim > 0 \/ nb > 0 \/ Kinds[kind] = "button") /\ other = 0 /\ ~decor /\ ~rebind)
         \* cont: every second pass of the main loop ends early through `continue` (housekeeping still runs once in it)
         /\ (cont => hasloop /\ (anim > 0 \/ nb > 0) /\ other = 0 /\ ~decor /\ ~rebind)
         \* rebind: the same name is also bound before the loop, to a device of the same kind on other pins
@@ -22,7 +25,7 @@ Init == /\ kind \in 1..Len(Kinds) /\ place \in {"before", "looptop"} /\ use \in 
         /\ (Kinds[kind] = "button" => use # "setup")
         /\ (other # 0 => other # kind /\ nb = 0 /\ Kinds[other] # "button")
         /\ (Kinds[kind] \in {"lcd", "lcdi2c"} => (other = 0 \/ Kinds[other] \notin {"lcd", "lcdi2c"}))
-Next == done = FALSE /\ done' = TRUE /\ UNCHANGED <<kind, place, use, nb, hasloop, other, rebind, decor, anim, cont>>
+Next == done = FALSE /\ done' = TRUE /\ UNCHANGED <<kind, place, use, nb, hasloop, other, rebind, decor, anim, cont, firstbind>>
 Emit == done => PrintT(ToJson([kind |-> Kinds[kind], place |-> place, use |-> use, nb |-> nb, hasloop |-> hasloop,
-                               other |-> (IF other = 0 THEN "none" ELSE Kinds[other]), rebind |-> rebind, decor |-> decor, anim |-> anim, cont |-> cont]))
+                               other |-> (IF other = 0 THEN "none" ELSE Kinds[other]), rebind |-> rebind, decor |-> decor, anim |-> anim, cont |-> cont, firstbind |-> firstbind]))
 =============================================================================
